@@ -63,6 +63,7 @@ type VC struct {
 }
 
 type heapComp struct {
+	idx   string // index sort ("" = Int)
 	sort  string // element sort
 	typ   types.Type
 	isArr bool // indexed by ref
